@@ -108,6 +108,14 @@ namespace Pistache::Http::Mime
 
         static Q fromFloat(double f)
         {
+            // Converting an out-of-range (or NaN) value to an integer is undefined:
+            // reject it before the conversion, like the constructor does after it
+            if (!(f >= 0.0 && f <= 1.0))
+            {
+                throw std::runtime_error(
+                    "Invalid quality value, must be in the [0; 1] range");
+            }
+
             return Q(static_cast<Type>(round(f * 100.0)));
         }
 
